@@ -386,5 +386,8 @@ def run(chk, repo):
     from rules.shared import truthy_numeric
     chk.clauses.append('C16.j (shared R-TRUTHY) no numeric parameter (reading frame, index, offset: 0 is a value) is tested by truthiness instead of `is None`')
     truthy_numeric(chk, repo, 'C16.j', ['seqvar', 'parser'])
+    from rules.shared import no_index_wrap
+    chk.clauses.append('C16.k (R-GUARD) the exon in front of an aligned exon (`exon[i - 1]`) is read only where i > 0 is known: index -1 would silently take the last exon of the transcript')
+    no_index_wrap(chk, repo, 'C16.k', ['seqvar.SplicingJunction', 'parser.RMATSParser'], floor=3)
 
 
